@@ -316,6 +316,26 @@ theorem payload_with_transaction_only_if_hash_matches (cfg : Cfg) (env : Env) (n
   · exact (addCheck_added hc).2.2.2.2.2 p rfl
   · exact absurd h hne
 
+/-- **a transaction that is already on the DAG is a no-op for `state.Add`, whatever bytes come with it**: the node — in
+    particular its payload store — is unchanged and nothing is sent. A peer cannot fill in (or replace) the payload of a
+    known private transaction by repeating the transaction in a TransactionList / range answer with bytes of its choosing;
+    the only writer left is `handleTransactionPayload` (`payload_stored_only_if_hash_matches`). -/
+theorem known_transaction_writes_no_payload (cfg : Cfg) (env : Env) (n : Node) (tx : Tx) (pl : Option Payload)
+    (h : present n.dag tx.ref = true) :
+    (addTx cfg env n tx pl).1 = n ∧ (addTx cfg env n tx pl).2.1 = [] ∧ (addTx cfg env n tx pl).2.2 = .present := by
+  have hc : addCheck n.dag tx pl = .present := by simp [addCheck, h]
+  simp [addTx, hc]
+
+theorem known_transaction_keeps_payload_store (cfg : Cfg) (env : Env) (n : Node) (tx : Tx) (pl : Option Payload)
+    (h : present n.dag tx.ref = true) (hash : Ref) : readPayload (addTx cfg env n tx pl).1 hash = readPayload n hash := by
+  rw [(known_transaction_writes_no_payload cfg env n tx pl h).1]
+
+/-- regenerated: the early-return branch of `State.Add` for a present transaction is `return nil` and nothing else; the only
+    payload write in `Add` is the hash-checked one under `payload != nil` on the new-transaction path -/
+theorem fact_state_add_present_branch_writes_nothing :
+    Facts.C15.stateAddPresentBranch = ["return nil"] ∧
+    Facts.C15.stateAddPayloadWrites = ["s.payloadStore.writePayload if payload != nil"] := by decide
+
 /-- the two cooperating guards as the source has them: a public transaction in a list needs a payload of non-zero LENGTH
     (a present-but-empty `optional bytes` field does not count), and `state.Add` hash-checks and stores every non-nil payload -/
 theorem fact_payload_presence_guards :
